@@ -901,6 +901,11 @@ var ReverseListFunc = function.New(&function.Spec{
 	RefineResult: refineNonNull,
 	Impl: func(args []cty.Value, retType cty.Type) (ret cty.Value, err error) {
 		in, marks := args[0].Unmark()
+		if in.Type().IsSetType() && !in.IsWhollyKnown() {
+			// Neither the iteration order nor the number of members of a set
+			// that holds unknown values is settled yet.
+			return cty.UnknownVal(retType).WithMarks(marks), nil
+		}
 		inVals := in.AsValueSlice()
 		outVals := make([]cty.Value, len(inVals))
 
